@@ -14,8 +14,8 @@ Rec == ndJsonDeserialize(IOEnv.TRACE)
 Cfg == JsonDeserialize(IOEnv.CFG)
 Devs == {Cfg.devs[i] : i \in DOMAIN Cfg.devs}
 
-VARIABLES l, persisted, queue, used
-tvars == <<l, persisted, queue, used>>
+VARIABLES l, persisted, queue, upfail, used
+tvars == <<l, persisted, queue, upfail, used>>
 E == Rec[l]
 
 Success(cls) == cls \in {"ok", "value"}
@@ -25,38 +25,81 @@ Proj(db) == [id |-> db.id, strategy |-> db.strategy,
              keys |-> [k \in {j \in DOMAIN db.keys : db.keys[j][3] # "Deleted"} |->
                          <<db.keys[k][1], db.keys[k][2]>>]]
 
-TraceInit == l = 1 /\ persisted = <<>> /\ queue = {} /\ used = {} /\ TLCSet(1, 0)
+TraceInit == l = 1 /\ persisted = <<>> /\ queue = {} /\ upfail = FALSE /\ used = {} /\ TLCSet(1, 0)
 
-Reset == /\ E.ev = "reset" /\ persisted' = <<>> /\ queue' = {} /\ used' = {}
+Reset == /\ E.ev = "reset" /\ persisted' = <<>> /\ queue' = {} /\ upfail' = FALSE /\ used' = {}
          /\ ((used # {}) => PrintT(<<"USED", Rec[l-1].run, used>>))
 
 SnapshotCmd ==
   /\ E.ev = "cmd" /\ E.op = "snapshot" /\ Success(E.cls)
   /\ queue' = queue \cup {E.names[i] : i \in DOMAIN E.names}
-  /\ UNCHANGED <<persisted, used>>
+  /\ UNCHANGED <<persisted, upfail, used>>
 
 OtherCmd ==
   /\ E.ev \in {"cmd", "close"} /\ ~(E.op = "snapshot" /\ Success(E.cls))
-  /\ UNCHANGED <<persisted, queue, used>>
+  /\ UNCHANGED <<persisted, queue, upfail, used>>
 
 TickDone ==
   /\ E.ev = "tick" /\ E.cls = "ok"
   /\ persisted' = [d \in DOMAIN persisted \cup (queue \cap DOMAIN E.dbs) |->
                      IF d \in queue THEN Proj(E.dbs[d]) ELSE persisted[d]]
   /\ queue' = {}
+  /\ upfail' = (upfail \/ E.putfail)
   /\ UNCHANGED used
 
+(* C18: an upload that still fails after the retries is reported (the snapshot run ends *)
+(* with a panic); nothing is considered persisted by it                                 *)
 TickFailed ==
   /\ E.ev = "tick" /\ E.cls # "ok"
-  /\ FALSE   \* a snapshot that does not complete is reported, not accepted
+  /\ "S3" \in {Cfg.checks[i] : i \in DOMAIN Cfg.checks} /\ E.putfail
+  /\ queue' = {} /\ upfail' = TRUE
+  /\ UNCHANGED <<persisted, used>>
+
+RestoredExactly == \A d \in DOMAIN persisted : d \in DOMAIN E.dbs /\ Proj(E.dbs[d]) = persisted[d]
 
 RestartOK ==
   /\ E.ev = "restart" /\ E.cls = "ok"
-  /\ \A d \in DOMAIN persisted : d \in DOMAIN E.dbs /\ Proj(E.dbs[d]) = persisted[d]
+  /\ RestoredExactly = TRUE
   /\ queue' = {}
-  /\ UNCHANGED <<persisted, used>>
+  /\ UNCHANGED <<persisted, upfail, used>>
 
-TraceNext == l <= Len(Rec) /\ l' = l + 1 /\ (Reset \/ SnapshotCmd \/ OtherCmd \/ TickDone \/ TickFailed \/ RestartOK)
+(* ---------------- known findings (C18) ---------------- *)
+S3On == "S3" \in {Cfg.checks[i] : i \in DOMAIN Cfg.checks}
+KeysSame(d) == Proj(E.dbs[d]).keys = persisted[d].keys
+MetaHard(d) == E.dbs[d].id = 1 /\ E.dbs[d].strategy = "arbiter"
+SubsetKeys(d) == \A k \in DOMAIN Proj(E.dbs[d]).keys :
+                    k \in DOMAIN persisted[d].keys /\ Proj(E.dbs[d]).keys[k] = persisted[d].keys[k]
+
+(* both S3 loaders give every database the identifier 1 and the arbiter strategy *)
+Dev_S3MetaHardcoded ==
+  /\ "Dev_S3MetaHardcoded" \in Devs /\ S3On
+  /\ E.ev = "restart" /\ E.cls = "ok" /\ RestoredExactly = FALSE
+  /\ (\A d \in DOMAIN persisted : d \in DOMAIN E.dbs /\ KeysSame(d) /\ (Proj(E.dbs[d]) = persisted[d] \/ MetaHard(d))) = TRUE
+  /\ queue' = {} /\ UNCHANGED <<persisted, upfail>>
+  /\ used' = used \cup {"Dev_S3MetaHardcoded"}
+
+(* strategy s3: an incremental snapshot replaces both objects with only the changed keys: *)
+(* keys untouched since the previous snapshot are gone after the restart                  *)
+Dev_S3IncrementalReplaces ==
+  /\ "Dev_S3IncrementalReplaces" \in Devs /\ S3On /\ ~upfail
+  /\ E.ev = "restart" /\ E.cls = "ok" /\ RestoredExactly = FALSE
+  /\ (\E d \in DOMAIN persisted : d \in DOMAIN E.dbs /\ ~KeysSame(d)) = TRUE
+  /\ (\A d \in DOMAIN persisted : d \in DOMAIN E.dbs /\ SubsetKeys(d)
+                                    /\ (Proj(E.dbs[d]).id = persisted[d].id /\ Proj(E.dbs[d]).strategy = persisted[d].strategy
+                                        \/ MetaHard(d))) = TRUE
+  /\ queue' = {} /\ UNCHANGED <<persisted, upfail>>
+  /\ used' = used \cup {"Dev_S3IncrementalReplaces"}
+
+(* strategy s3: a failed PutObject is ignored: the snapshot completes, the data is not there *)
+Dev_S3PutFailureSilent ==
+  /\ "Dev_S3PutFailureSilent" \in Devs /\ S3On /\ upfail
+  /\ E.ev = "restart" /\ E.cls = "ok" /\ RestoredExactly = FALSE
+  /\ (\A d \in DOMAIN persisted : d \in DOMAIN E.dbs => SubsetKeys(d)) = TRUE
+  /\ queue' = {} /\ UNCHANGED <<persisted, upfail>>
+  /\ used' = used \cup {"Dev_S3PutFailureSilent"}
+
+TraceNext == l <= Len(Rec) /\ l' = l + 1 /\ (Reset \/ SnapshotCmd \/ OtherCmd \/ TickDone \/ TickFailed \/ RestartOK
+              \/ Dev_S3MetaHardcoded \/ Dev_S3IncrementalReplaces \/ Dev_S3PutFailureSilent)
 TraceSpec == TraceInit /\ [][TraceNext]_tvars
 
 Progress ==
